@@ -327,30 +327,39 @@ func handleLMove(params internal.HandlerFuncParams) ([]byte, error) {
 		return nil, errors.New("both source and destination must be lists")
 	}
 
-	switch whereFrom {
-	case "left":
-		err = params.SetValues(params.Context, map[string]interface{}{
-			source: append([]string{}, sourceList[1:]...),
-			destination: func() []string {
-				if whereTo == "left" {
-					return append(sourceList[0:1], destinationList...)
-				}
-				// whereTo == "right"
-				return append(destinationList, sourceList[0])
-			}(),
-		})
-	case "right":
-		err = params.SetValues(params.Context, map[string]interface{}{
-			source: append([]string{}, sourceList[:len(sourceList)-1]...),
-			destination: func() []string {
-				if whereTo == "left" {
-					return append(sourceList[len(sourceList)-1:], destinationList...)
-				}
-				// whereTo == "right"
-				return append(destinationList, sourceList[len(sourceList)-1])
-			}(),
-		})
+	// There is nothing to move out of an empty list.
+	if len(sourceList) == 0 {
+		return nil, errors.New("source list is empty")
 	}
+
+	// Take the element out of the source list (working on a copy, never on the stored slice).
+	var element string
+	var newSource []string
+	if whereFrom == "left" {
+		element = sourceList[0]
+		newSource = append([]string{}, sourceList[1:]...)
+	} else {
+		element = sourceList[len(sourceList)-1]
+		newSource = append([]string{}, sourceList[:len(sourceList)-1]...)
+	}
+
+	// When source and destination are the same list, the element is put back into that same list.
+	if source == destination {
+		destinationList = newSource
+	}
+
+	var newDestination []string
+	if whereTo == "left" {
+		newDestination = append([]string{element}, destinationList...)
+	} else {
+		newDestination = append(append([]string{}, destinationList...), element)
+	}
+
+	entries := map[string]interface{}{destination: newDestination}
+	if source != destination {
+		entries[source] = newSource
+	}
+	err = params.SetValues(params.Context, entries)
 
 	if err != nil {
 		return nil, err
